@@ -779,8 +779,8 @@ func runLines(in io.Reader, out io.Writer) {
 }
 
 func main() {
-	if len(os.Args) >= 2 && os.Args[1] == "gen" {
-		genMain(os.Args[2:])
+	if len(os.Args) >= 2 && os.Args[1] == "par" {
+		parMain(os.Args[2:])
 		return
 	}
 	runLines(os.Stdin, os.Stdout)
